@@ -51,9 +51,10 @@ def gen_concurrent(rng, n):
     """n well-formed messages for ONE module (no lists), each with a group name of its own and long strings no other case
     shares: (cases, tags, expected)."""
     cfg = W.rnd_cfg(rng)
+    lists = rng.choice([(0, 0), (W.EMPTY, W.EMPTY), (W.EMPTY, 0), (0, W.EMPTY)])    # no list, in one of its spellings
     cases, tags, expected = [], [], []
     for i in range(n):
-        ln, tg, exp, _k, _v = W.gen_valid(rng, cfg=cfg, lists=(0, 0), unique=i)
+        ln, tg, exp, _k, _v = W.gen_valid(rng, cfg=cfg, lists=lists, unique=i)
         cases.append(ln)
         tags.append(tg)
         expected.append(exp)
@@ -156,7 +157,9 @@ def run(chk, failed):
                 "pattern pool); each is encoded by three independent encoders (Coq WireEnc extracted, Go in the probe, Python) "
                 "which must agree byte for byte, decoded by the real processConsumerOffsetsMessage and by the model; plus `re` "
                 "cases tying the accept oracle to the real regexp; the consumer module's own name differs from its configured cluster "
-                "in 4 of the 6 configurations used (every request must name the cluster). Then the concurrent stream: 1200 "
+                "in 4 of the 6 configurations used (every request must name the cluster); a list is absent, a pattern, or present "
+                "with the empty string (= no list; 18 % of the cases), and the module is configured with viper.Set or from a TOML "
+                "document read by viper.ReadConfig (35 %). Then the concurrent stream: 1200 "
                 "(thorough 20000) further messages with unique group names and long distinct strings through ONE module from "
                 "16 goroutines at once, 3 rounds, each result compared with the sequential one (thorough: also under the race "
                 "detector); non-trivial = the implementation emitted at least one storage request; distinct by the case line")
